@@ -1,4 +1,6 @@
 import VlsModel.Gen.FnHandlerAcc
+import VlsModel.Gen.FnNodeForget
+import VlsModel.Gen.FnNodeNewChannel
 /-
 C10 — companion module: functions of `vls-protocol-signer/src/handler.rs` translated from the Rust source on every run
 (`translate/rs2lean.py`, target list `translate/fn_targets/Handler.b1012.json`; methods named like a field of their struct
@@ -48,5 +50,107 @@ theorem C10_fn_handler_builder {Approve : Type} (b : HandlerBuilder Approve) (al
 
 /-- non-vacuity: a handler that negotiated version 4 becomes a root handler at version 4 -/
 example : (InitHandler.into (Node := Nat) (Approve := Unit) ⟨0, 7, (), 6, some 4⟩) = .ok ⟨0, 7, (), 4⟩ := rfl
+
+/-! ### Round 10 (builder b5): the refusal of `Node::forget_channel` (translated: `Gen.FnNodeForget`, tied for C11 by
+    `C11Fn.C11_fn_forget_channel`) -/
+section Forget
+open VlsModel.Gen.FnNodeForget
+
+/-- **C10_fn_forget_channel_refused**: the only refusal of `Node::forget_channel` — the ready channel's `forget()` returning an
+    error — happens before any store write: the result is that error whatever the persister would have answered (a persister
+    call evaluated before it could only turn the result into a panic), i.e. no `update_node` / `delete_channel` /
+    `update_tracker` is reached.  And an id the channel map does not hold is `Ok` without any write. -/
+theorem C10_fn_forget_channel_refused {ChannelId PublicKey ChainTracker Persist : Type} [DecidableEq ChannelId]
+    (chs : Node ChannelId PublicKey ChainTracker Persist → List (ChannelId × ChannelSlot))
+    (fg : Channel → Rs.M Unit) (st : Node ChannelId PublicKey ChainTracker Persist → NodeState)
+    (oid : ChannelId → Nat) (updn : Persist → PublicKey → NodeState → Option Unit)
+    (del : Persist → PublicKey → ChannelId → Option Unit) (updt : Persist → PublicKey → ChainTracker → Option Unit)
+    (self : Node ChannelId PublicKey ChainTracker Persist) (id : ChannelId) :
+    (∀ ch f, Rs.omapGet (chs self) id = some (.Ready ch) → fg ch = .error f →
+      Node.forget_channel chs fg st oid updn del updt self id = .error f) ∧
+    (Rs.omapGet (chs self) id = none → Node.forget_channel chs fg st oid updn del updt self id = .ok ()) := by
+  constructor
+  · intro ch f hg hf
+    unfold Node.forget_channel
+    simp only [hg, hf, bind, Except.bind]
+  · intro hg
+    unfold Node.forget_channel
+    simp [hg, bind, Except.bind, pure, Except.pure]
+
+/-- non-vacuity: a ready channel whose monitor refuses the forget, over a persister that fails every write -/
+example :
+    let node : Node Nat Nat Nat Nat := { channels := [(2, .Ready ⟨⟩)], persister := 0, tracker := 4, state := ⟨3⟩, node_id := 9 }
+    Node.forget_channel (fun n => n.channels) (fun _ => Rs.fail "policy") (fun n => n.state) id (fun _ _ _ => none)
+        (fun _ _ _ => none) (fun _ _ _ => none) node 2 = Rs.fail "policy" := by
+  intro node; rfl
+
+end Forget
+
+section NewChannel
+open VlsModel.Gen.FnNodeNewChannel
+variable {ChannelId ChannelSlot PublicKey Persist Policy InMemorySigner WeakNode Secp256k1 : Type} [DecidableEq ChannelId]
+  (bh : Node ChannelId ChannelSlot PublicKey Persist → Nat)
+  (chs : Node ChannelId ChannelSlot PublicKey Persist → List (ChannelId × ChannelSlot))
+  (pol : Policy) (maxc : Policy → Nat)
+  (keys : ChannelId → Nat → Node ChannelId ChannelSlot PublicKey Persist → InMemorySigner)
+  (dg : Node ChannelId ChannelSlot PublicKey Persist → WeakNode) (secp : Secp256k1)
+  (mkStub : ChannelStub WeakNode Secp256k1 InMemorySigner ChannelId → ChannelSlot)
+  (nc : Persist → PublicKey → ChannelStub WeakNode Secp256k1 InMemorySigner ChannelId → Option Unit)
+  (self arc : Node ChannelId ChannelSlot PublicKey Persist) (cid : ChannelId)
+
+/-- **C10_fn_find_or_create_channel_refused**: the two refusals of `Node::find_or_create_channel` (`new_channel`: a dbid at or
+    below the high-water mark; a full channel map) are decided before the stub is built, inserted or written: the result is
+    the refusal for EVERY persister `nc` (no `persister.new_channel` is reached), and an id the map already holds is
+    answered with the existing slot, again without a write. -/
+theorem C10_fn_find_or_create_channel_refused (mono : Option Nat) :
+    (∀ dbid, mono = some dbid → self.state.dbid_high_water_mark ≥ dbid →
+      Node.find_or_create_channel bh chs pol maxc keys dg secp mkStub nc self cid arc mono
+        = VlsModel.Rs.fail "policy-channel-original-channel-id-reuse") ∧
+    ((∀ dbid, mono = some dbid → self.state.dbid_high_water_mark < dbid) → (chs self).length ≥ maxc pol →
+      Node.find_or_create_channel bh chs pol maxc keys dg secp mkStub nc self cid arc mono
+        = VlsModel.Rs.fail "Status::failed_precondition") ∧
+    ((∀ dbid, mono = some dbid → self.state.dbid_high_water_mark < dbid) → (chs self).length < maxc pol →
+      ∀ slot, VlsModel.Rs.omapGet (chs self) cid = some slot →
+      Node.find_or_create_channel bh chs pol maxc keys dg secp mkStub nc self cid arc mono = .ok (cid, some slot)) := by
+  refine ⟨?_, ?_, ?_⟩
+  · intro dbid hm hh
+    subst hm
+    unfold Node.find_or_create_channel
+    simp [Node.get_state, hh]
+  · intro hm hl
+    unfold Node.find_or_create_channel
+    cases mono with
+    | none => simp [hl]
+    | some d =>
+      have := hm d rfl
+      have h2 : ¬ (self.state.dbid_high_water_mark ≥ d) := by omega
+      simp [Node.get_state, h2, hl]
+  · intro hm hl slot hs
+    unfold Node.find_or_create_channel
+    have hl2 : ¬ ((chs self).length ≥ maxc pol) := by omega
+    cases mono with
+    | none => simp [hl2, hs, pure, Except.pure]
+    | some d =>
+      have := hm d rfl
+      have h2 : ¬ (self.state.dbid_high_water_mark ≥ d) := by omega
+      simp [Node.get_state, h2, hl2, hs, pure, Except.pure]
+
+/-- **C10_fn_new_channel_refused**: `Node::new_channel` is `find_or_create_channel` on the id derived from (peer, dbid) with the
+    dbid as the monotonic bound: a dbid at or below the high-water mark is refused for every persister. -/
+theorem C10_fn_new_channel_refused (mkId : List Nat → Nat → ChannelId) (peer : List Nat) (dbid : Nat)
+    (hh : self.state.dbid_high_water_mark ≥ dbid) :
+    Node.new_channel mkId bh chs pol maxc keys dg secp mkStub nc self dbid peer arc
+      = VlsModel.Rs.fail "policy-channel-original-channel-id-reuse" := by
+  unfold Node.new_channel
+  exact (C10_fn_find_or_create_channel_refused bh chs pol maxc keys dg secp mkStub nc self arc (mkId peer dbid) (some dbid)).1 dbid rfl hh
+
+/-- non-vacuity: mark at 5, `new_channel` with dbid 5 over a persister that would fail: refused, not a panic -/
+example :
+    let node : Node Nat (Option (ChannelStub Nat Nat Nat Nat)) Nat Nat := { channels := [], persister := 0, state := ⟨5⟩, node_id := 9 }
+    Node.new_channel (fun _ d => d) (fun _ => 7) (fun n => n.channels) (0 : Nat) (fun _ => 2) (fun _ _ _ => 0) (fun _ => 0) (0 : Nat)
+      some (fun _ _ _ => none) node 5 [] node = VlsModel.Rs.fail "policy-channel-original-channel-id-reuse" := by
+  intro node; rfl
+
+end NewChannel
 
 end VlsModel.Props.C10Fn
